@@ -256,6 +256,18 @@ def keep_drop(repo, chk):
                     bad_emit = bad_emit or res
     site = fn.site(tl)
     conj_txt = sorted({ast.unparse(t_ast)[:80] for _, res in paths for t_ast, _ in res.assumed})
+    # library knowledge: Series.value_counts() leaves missing values out unless dropna=False is passed - support statistics taken from it
+    # ignore the NaN cells, which the rule counts as one more value (the text 'nan')
+    vc = [c for c in calls(fn) if isinstance(c.func, ast.Attribute) and c.func.attr == 'value_counts' and not any(k.arg == 'dropna' and isinstance(k.value, ast.Constant) and k.value.value is False for k in c.keywords)]
+    # ... and the tests that decide emission read its result (directly, or through the name it is bound to)
+    bound_to = {st.targets[0].id for c in vc for st in own_nodes(fn.node) if isinstance(st, ast.Assign) and st.value is c and isinstance(st.targets[0], ast.Name)}
+    tests = [t_ast for _, res in paths for t_ast, _ in res.assumed]
+    vc_used = [c for c in vc if any('value_counts' in ast.unparse(t) or any(isinstance(x, ast.Name) and x.id in bound_to for x in ast.walk(t)) for t in tests)]
+    if vc and not vc_used and bound_to:
+        vc_used = vc          # bound to a local that the (substituted) tests no longer name: still the source of the statistics
+    if vc_used:
+        chk.bad('C12.2-majority', 'R14', fn.site(vc_used[0]), ast.unparse(vc_used[0])[:100], "the support statistics of the keep rule are taken from Series.value_counts(), which leaves missing values out (dropna=True): the NaN cells, which count as the value 'nan' in the rule, "
+                'take no part in the number of distinct values and in the majority share, so mostly-missing or constant-plus-missing columns are kept or dropped wrongly')
     for key in labels:
         if verdict[key] is True:
             chk.ok(f'C12.2-{key}', 'R14', site, labels[key], 'condition present with the stated relation and threshold')
